@@ -209,6 +209,7 @@ func (c *Ctx) Name(st *State, prefix string, t Term) Term {
 	}
 	n := st.Declare(c.Reg.Fresh(prefix), t.Sort)
 	st.Assume(Eq(n, t))
+	st.aliases[n.S] = t.S
 	// propagate Go-side facts
 	if ty, ok := st.boxed[t.S]; ok {
 		st.boxed[n.S] = ty
